@@ -409,8 +409,12 @@ pub fn op2(op: Op2, tl: &[Ev]) -> Option<Exp2> {
               }
               return exact(out, T::C);
             }
-            // notifier completing first: unspecified
-            return None;
+            // the notifier completing ends the output: what was gathered since the
+            // last tick is released (nothing, not an empty buffer, when nothing was)
+            if !buf.is_empty() {
+              out.push(V::L(std::mem::take(&mut buf)));
+            }
+            return exact(out, T::C);
           }
         }
       }
